@@ -52,9 +52,14 @@ def cases(tier, seed):
                 for mode in (["base", "int-partial", "square-int", "evi-fold"] if "bin-probs" not in mixed else ["base", "evi-fold"]):
                     yield {"mode": mode, "circ": circ, "vk": "monotone"}
             for style in ["cpt", "sumsum", "cp"]:
-                circ = dict(tree=tree, prod=prod, style=style, nary="dense", kin=2 if prod == "had" else 1, ksum=2 if prod == "had" else 1, kout=1, inp="emb", numbering="id", cplx=True)
-                yield {"mode": "base", "circ": circ, "vk": "complex"}
-                yield {"mode": "square", "circ": circ, "vk": "complex"}
+                for ctree in [tree, ("M", [[0, 1], [0, 1]]), ("M", [[0, 1], [1, 0]])]:
+                    if ctree != tree and tree != ("P", [0, 1]):
+                        continue
+                    circ = dict(tree=ctree, prod=prod, style=style, nary="dense", kin=2 if prod == "had" else 1, ksum=2 if prod == "had" else 1, kout=1, inp="emb", numbering="id", cplx=True)
+                    yield {"mode": "base", "circ": circ, "vk": "complex"}
+                    yield {"mode": "square", "circ": circ, "vk": "complex"}
+                    yield {"mode": "conj", "circ": circ, "vk": "complex"}
+                    yield {"mode": "square-conj", "circ": circ, "vk": "complex"}
     for tree in A.REPRESENTATIVE_TREES + [("P", [0, 1]), ("M", [[0, 1], [1, 0]]), ("M", [[0, 1, 2], [2, 0, 1]])]:
         for prod in ["had", "kro"]:
             for inp, vk in [("emb", "generic"), ("cat-logits", "monotone"), ("cat-softmax", "monotone"), ("gau-lp", "monotone"), ("poly2", "generic")]:
@@ -107,6 +112,8 @@ def pipeline_of(case):
         return {"circuits": [spec], "ops": ops}, targets
     if m == "conj":
         return {"circuits": [spec], "ops": [{"op": "conjugate", "args": [0]}, {"op": "multiply", "args": [0, 1]}]}, [1, 2]
+    if m == "square-conj":
+        return {"circuits": [spec], "ops": [{"op": "multiply", "args": [0, 0]}, {"op": "conjugate", "args": [1]}]}, [2]
     if m == "concat":
         return {"circuits": [spec], "ops": [{"op": "multiply", "args": [0, 0]}, {"op": "integrate", "args": [0], "scope": vs[:1]},
                                             {"op": "concatenate", "args": [0, 0]}]}, [1, 2, 3]
